@@ -217,6 +217,10 @@ func ZstdGo(b []byte, level int, crc bool) []byte {
 
 // ZstdC compresses with libzstd (cgo) at the given level (1..19).
 func ZstdC(b []byte, level int) []byte {
+	if len(b) == 0 {
+		// gozstd returns an empty slice for empty input, which is not a zstd frame
+		return ZstdGo(b, 1, false)
+	}
 	return gozstd.CompressLevel(nil, b, level)
 }
 
